@@ -173,6 +173,35 @@ pub fn shm_objects(config: &Config, node_objects: bool) -> Vec<String> {
     v
 }
 
+/// Indices of the nodes (index, details directory name) whose details directory contains a service tag.
+pub fn tagged_nodes(config: &Config, nodes: &[(usize, String)]) -> Vec<usize> {
+    let suffix = config.global.node.service_tag_suffix.to_string();
+    let base = config.global.node_dir().to_string();
+    let mut v = vec![];
+    for (nd, dir) in nodes {
+        if let Ok(rd) = std::fs::read_dir(format!("{base}/{dir}")) {
+            if rd.flatten().any(|e| e.file_name().to_string_lossy().ends_with(suffix.as_str())) {
+                v.push(*nd);
+            }
+        }
+    }
+    v.sort();
+    v
+}
+
+/// Number of node details directories (sub-directories of the node directory) of the domain.
+pub fn node_dirs(config: &Config) -> u64 {
+    let mut n = 0;
+    if let Ok(rd) = std::fs::read_dir(config.global.node_dir().to_string()) {
+        for e in rd.flatten() {
+            if matches!(e.file_type(), Ok(t) if t.is_dir()) {
+                n += 1;
+            }
+        }
+    }
+    n
+}
+
 fn all_shm_objects(config: &Config) -> Vec<String> {
     let prefix = config.global.prefix.to_string();
     let mut v = vec![];
